@@ -479,6 +479,14 @@ class Master(loader.Loader):
                                  servername, app, placement_data)
                     self.backend.put(app_node, placement_data)
 
+        # Remove placement records of servers that are not in the model.
+        for servername in (set(self.backend.list(z.PLACEMENT)) -
+                           set(self.cell.members())):
+            placement_node = z.path.placement(servername)
+            for app in self.backend.list(placement_node):
+                _LOGGER.info('Unscheduling: %s - %s', servername, app)
+                self.backend.delete(os.path.join(placement_node, app))
+
         self._save_placement(placement)
         self.up_to_date = True
 
